@@ -123,8 +123,8 @@ func zzMax3(a, b, c uint32) uint32 {
 // updateMaxHeightPrevoted, updateMaxHeightPrecommitted.
 //
 //zz:opt loop=16 merge=~/pkg/collection/ints.Max[uint32],~/pkg/collection/ints.Min[uint32]
-//zz:quick L=3 n=2 sets=1
-//zz:thorough L=4 n=2 sets=2
+//zz:quick L=3 n=2 sets=2 budget=300s
+//zz:thorough L=4 n=2 sets=2 budget=40m
 func zzH_C01_vote_rules(t *zzT) {
 	L, n := t.Param("L", 3), t.Param("n", 2)
 	s := zzBuildBFT(t, L, n, t.Param("sets", 1))
